@@ -1807,27 +1807,103 @@ package nutsdb
 //@   ensures forall k int :: 0 <= k && k < len(BPTreeRootIdxGroup) ==> BPTreeRootIdxGroup[k] != nil
 //@   requires forall k int :: 0 <= k && k < len(BPTreeRootIdxGroup) ==> BPTreeRootIdxGroup[k] != nil
 //@   modifies elems(BPTreeRootIdxGroup)
+// The on-disk walkers of sparse mode. Under contract: which child the descent takes (the rule of the in-memory
+// FindLeaf, on composite keys), which slots a leaf walk collects and where it stops, and that a point lookup returns
+// only the record whose composite key equals the one asked for. Assumed: ReadNode returns the node that WriteNodes
+// wrote (KeysNum within the slot arrays), and a slot of a node file points at a record of the segment, not at zero
+// padding (DataFile.ReadAt does not return nil, nil there). No `safety panics` here: corrupt node files are outside
+// every property.
+//@ func ReadNode
+//@   assumed reads one BinaryNode record of a node file through the OS and encoding/binary
+//@   ensures err == nil ==> bn != nil && fresh(bn) && bn.KeysNum <= order - 1
+//@   ensures err != nil ==> bn == nil
+//@   modifies nothing
+//@ func Tx.FindLeafOnDisk
+//@   requires tx != nil && tx.db != nil
+//@   ensures[C02] err != nil ==> bn == nil
+//@   ensures err == nil ==> bn != nil
+//@   modifies lastReadOff
+//@   loops 2
+//@   loop 1: modifies lastReadOff
+//@   loop 1: invariant tx == old(tx) && tx.db == old(tx.db) && newKey == old(newKey) && fID == old(fID) && curr != nil
+//@   at stored curr in loop 1: assume curr != nil
+//@   loop 2: modifies lastReadOff
+//@   loop 2: invariant tx == old(tx) && tx.db == old(tx.db) && newKey == old(newKey) && fID == old(fID) && curr == pre(curr)
+//@   at call Close: assume err@2 == nil ==> item != nil && item.Meta != nil
+//@   branch 6: iff[C02,C04] cmp(newKey, concat(string(item.Meta.bucket), string(item.Key))) >= 0
+//@ func Tx.getStartIndexForFindRange
+//@   requires tx != nil && tx.db != nil && curr != nil
+//@   modifies lastReadOff
+//@   loops 1
+//@   loop 1: modifies lastReadOff
+//@   loop 1: invariant tx == old(tx) && tx.db == old(tx.db) && newStart == old(newStart) && curr == old(curr) && fID == old(fID)
+//@   at call Close: assume err == nil ==> entry != nil && entry.Meta != nil
+//@   branch 4: iff[C02,C04] cmp(concat(string(entry.Meta.bucket), string(entry.Key)), newStart) >= 0
+//@ func Tx.getStartIndexForFindPrefix
+//@   requires tx != nil && tx.db != nil && curr != nil
+//@   modifies lastReadOff
+//@   loops 1
+//@   loop 1: modifies lastReadOff
+//@   loop 1: invariant tx == old(tx) && tx.db == old(tx.db) && prefix == old(prefix) && curr == old(curr) && fID == old(fID)
+//@   at call Close: assume err == nil ==> entry != nil && entry.Meta != nil
+//@   branch 4: iff[C02,C03,C04] cmp(concat(string(entry.Meta.bucket), string(entry.Key)), prefix) >= 0
 //@ func Tx.findRangeOnDisk
-//@   assumed on-disk walker: leaf walk of one sealed segment's node file
+//@   requires tx != nil && tx.db != nil
 //@   ensures forall k int :: 0 <= k && k < len(es) ==> es[k] != nil && es[k].Meta != nil
 //@   modifies lastReadOff
+//@   loops 2
+//@   loop 1: modifies lastReadOff
+//@   loop 1: invariant tx == old(tx) && tx.db == old(tx.db) && newEnd == old(newEnd) && fID == old(fID) && sinceLoop(es) && (forall k int :: 0 <= k && k < len(es) ==> es[k] != nil && es[k].Meta != nil)
+//@   loop 2: modifies lastReadOff, elems(es)
+//@   loop 2: invariant tx == old(tx) && tx.db == old(tx.db) && newEnd == old(newEnd) && fID == old(fID) && curr == pre(curr) && (arr(es) == arr(pre(es)) || sinceLoop(es)) &&
+//@        (forall k int :: 0 <= k && k < len(es) ==> es[k] != nil && es[k].Meta != nil)
+//@   at call Close: assume err@2 == nil ==> entry != nil && entry.Meta != nil
+//@   branch 9: iff[C02,C04] cmp(concat(string(entry.Meta.bucket), string(entry.Key)), newEnd) > 0
+//@   at stored es: assert[C02] len(es) > 0 ==> es[len(es) - 1] == entry && cmp(concat(string(entry.Meta.bucket), string(entry.Key)), newEnd) <= 0
 
 //@ spec func sparseOK(db *DB) bool = db.ActiveBPTreeIdx != nil && db.ActiveCommittedTxIdsIdx != nil && rootIdxesOK(db) && nodesOK(nil)
 //@ func DB.getDataPath
 //@   modifies nothing
 //@   pure
 //@ func Tx.FindOnDisk
-//@   assumed on-disk walker: point lookup in one sealed segment's node file
+//@   requires tx != nil && tx.db != nil
 //@   ensures err != nil ==> entry == nil
 //@   ensures entry != nil ==> entry.Meta != nil
+//@   ensures[C02,C04] entry != nil && err == nil ==> string(newKey) == concat(string(entry.Meta.bucket), string(entry.Key))
 //@   modifies lastReadOff
+//@   loops 1
+//@   loop 1: modifies lastReadOff
+//@   loop 1: invariant tx == old(tx) && tx.db == old(tx.db) && newKey == old(newKey) && fID == old(fID) && bnLeaf == pre(bnLeaf) && bnLeaf != nil && 0 <= i && i <= bnLeaf.KeysNum
+//@   at call Close: assume err == nil ==> entry != nil && entry.Meta != nil
+//@   branch 6: iff[C02,C04] cmp(newKey, concat(string(entry.Meta.bucket), string(entry.Key))) == 0
 //@ func Tx.FindTxIDOnDisk
-//@   assumed on-disk walker: lookup of a transaction id in one sealed segment's tx-id node file
+//@   requires tx != nil && tx.db != nil
 //@   modifies nothing
+//@   loops 3
+//@   loop 1: modifies nothing
+//@   loop 1: invariant txIDStr == pre(txIDStr)
+//@   loop 2: modifies nothing
+//@   loop 2: invariant txIDStr == pre(txIDStr) && curr == pre(curr)
+//@   loop 3: modifies nothing
+//@   loop 3: invariant txIDStr == pre(txIDStr) && curr == pre(curr) && 0 <= i && i <= curr.KeysNum && (forall k int :: 0 <= k && k < i ==> cmp(txIDStr, itoa(curr.Keys[k])) != 0)
+//@   branch 5: iff[C02,C12] cmp(txIDStr, itoa(curr.Keys[i])) >= 0
+//@   branch 8: iff[C02,C12] cmp(txIDStr, itoa(curr.Keys[i])) == 0
+//@   ensures[C02,C12] ok ==> err == nil
 //@ func Tx.findPrefixOnDisk
-//@   assumed on-disk walker: prefix walk over the leaves of one sealed segment
+//@   requires tx != nil && tx.db != nil
 //@   ensures forall k int :: 0 <= k && k < len(es) ==> es[k] != nil && es[k].Meta != nil
+//@   ensures[C03] limitNum > 0 ==> len(es) <= limitNum
 //@   modifies lastReadOff
+//@   loops 2
+//@   loop 1: modifies lastReadOff
+//@   loop 1: invariant tx == old(tx) && tx.db == old(tx.db) && prefix == old(prefix) && bucket == old(bucket) && fID == old(fID) && limitNum == old(limitNum) && offsetNum == old(offsetNum) && sinceLoop(es) &&
+//@        numFound == len(es) && (limitNum > 0 ==> numFound <= limitNum) && (limitNum > 0 && numFound == limitNum ==> !scanFlag) && (forall k int :: 0 <= k && k < len(es) ==> es[k] != nil && es[k].Meta != nil)
+//@   loop 2: modifies lastReadOff, elems(es)
+//@   loop 2: invariant tx == old(tx) && tx.db == old(tx.db) && prefix == old(prefix) && bucket == old(bucket) && fID == old(fID) && limitNum == old(limitNum) && offsetNum == old(offsetNum) && curr == pre(curr) &&
+//@        (arr(es) == arr(pre(es)) || sinceLoop(es)) && numFound == len(es) && (limitNum > 0 ==> numFound < limitNum || (numFound == limitNum && !scanFlag)) &&
+//@        (forall k int :: 0 <= k && k < len(es) ==> es[k] != nil && es[k].Meta != nil)
+//@   at call Close: assume err@2 == nil ==> entry != nil && entry.Meta != nil
+//@   at stored es: assert[C03,C04] len(es) > 0 ==> es[len(es) - 1] == entry && hasPrefix(string(entry.Key), string(prefix)) && string(entry.Meta.bucket) == bucket && coff >= offsetNum
 //@ func Tx.findPrefixSearchOnDisk
 //@   assumed on-disk walker: prefix + regexp walk over the leaves of one sealed segment
 //@   ensures forall k int :: 0 <= k && k < len(es) ==> es[k] != nil && es[k].Meta != nil
